@@ -2,7 +2,7 @@
    Labels are an abstract type with a decidable equality reflecting =; no bound on sizes. *)
 From Coq Require Import Arith List Bool ZArith Sorting.Sorted Permutation Floats.
 Import ListNotations.
-From MT Require Import Arith SweepModel GraphModel GraphProofs GraphMult.
+From MT Require Import Arith SweepModel GraphModel GraphProofs GraphMult WeightProofs.
 #[local] Arguments lout : clear implicits.
 #[local] Arguments lin : clear implicits.
 
@@ -105,10 +105,24 @@ Print Assumptions C08_expand.
 Print Assumptions C08_lists.
 Print Assumptions C08_bounds.
 
-(* weights -> multiplicities: integer weights (w <= 1e-6 iff w <= 0), and the binary64 decoding for real weights *)
-Theorem C08_weight_int : forall w : Z, (count_int w = Z.to_nat w) /\ ((w <= 0)%Z -> count_int w = 0).
-Proof. intros w. split; [reflexivity|]. intros H. unfold count_int. destruct w; try reflexivity. exfalso. apply H. reflexivity. Qed.
+(* weights -> multiplicities.  Integer weights: w <= 0 (i.e. w <= 1e-6) gives no edge, w > 0 gives w edges. *)
+Theorem C08_weight_int : forall w : Z, ((w <= 0)%Z -> count_int w = 0) /\ ((0 < w)%Z -> Z.of_nat (count_int w) = w).
+Proof. exact count_int_spec. Qed.
 Print Assumptions C08_weight_int.
+
+(* Real weights: a weight <= 1e-6 gives none; otherwise the multiplicity is the weight ROUNDED UP: for the binary64
+   value m * 2^e decoded by Prim2SF (m < 2^53 for every finite double), c = count_real w satisfies c - 1 < m * 2^e <= c *)
+Theorem C08_weight_real_small : forall w : float, PrimFloat.ltb 0x1.0c6f7a0b5ed8dp-20 w = false -> count_real w = 0.
+Proof. exact count_real_small. Qed.
+Theorem C08_weight_real_ceiling : forall (w : float) (m : positive) (e : Z),
+  Prim2SF w = S754_finite false m e ->
+  PrimFloat.ltb 0x1.0c6f7a0b5ed8dp-20 w = true ->
+  (Z.pos m < 2 ^ 53)%Z ->
+  let c := Z.of_nat (count_real w) in
+  ((0 <= e)%Z -> c = (Z.pos m * 2 ^ e)%Z) /\
+  ((e < 0)%Z -> ((c - 1) * 2 ^ (- e) < Z.pos m <= c * 2 ^ (- e))%Z).
+Proof. exact count_real_ceiling. Qed.
+Print Assumptions C08_weight_real_ceiling.
 
 Example C08_weight_real :
   (count_real 2.5%float = 3 /\ count_real 1%float = 1 /\ count_real 0%float = 0 /\ count_real 0x1.ad7f29abcaf48p-24%float = 0 /\
